@@ -159,13 +159,7 @@ func Main(d CheckDef) {
 		if os.Getenv("VERIF_SYNC_ONLY") != "" {
 			return
 		}
-		for _, sc := range scs {
-			if c.Expired() {
-				c.Cap("scenario %s not started", sc.Name)
-				continue
-			}
-			sched.Explore(c, sc)
-		}
+		sched.ExploreAll(c, scs)
 	}
 	replay := func(c *lib.Ctx, raw json.RawMessage) {
 		var sc syncCase
